@@ -49,7 +49,8 @@ pub fn snap<T: Comp>(sim: &Sim, e: Entity) -> Snap<T> {
 pub struct AMon<T: Comp> {
     pub twin: Option<Box<dyn SafeTimeline<Target = T>>>,
     pub desc: Option<TlDesc>,
-    /// false after a hot set_timeline until the next reset: only invariants 1, 2, 3, 7, 8 are demanded
+    /// false after a hot set_timeline that happened while the animator was already Ended, until the next
+    /// reset: the stale `Ended` status is not judged against the new timeline (invariants 5, 6)
     pub run_valid: bool,
     pub ended_in_run: u32,
 }
@@ -92,7 +93,10 @@ impl<T: Comp> AMon<T> {
             return err("state-backwards", format!("state moved backwards {:?} -> {:?}", pre.state, post.state));
         }
         let p = pre.pos.as_secs_f32() as f64;
-        if self.run_valid {
+        // After a hot set_timeline (documented as intentional) the state is carried over. Everything that
+        // *happens after the swap* is still judged against the new timeline; only an `Ended` status that
+        // was reached under the replaced timeline is stale and not judged (`run_valid == false`).
+        if self.run_valid || pre.state != AnimationState::Ended {
             // 4. Waiting only before the delay
             if post.state == AnimationState::Waiting && !(p < d.delay as f64) {
                 return err("waiting-after-delay", format!("Waiting at position {p} although the delay is {}", d.delay));
@@ -109,7 +113,7 @@ impl<T: Comp> AMon<T> {
                 return err("ended-infinite", "Ended for an infinitely repeating timeline".to_string());
             }
             // 6. Ended => terminal values
-            if post.state == AnimationState::Ended && !self.terminal_ok(&post.comp) {
+            if post.state == AnimationState::Ended && (self.run_valid || pre.state != AnimationState::Ended) && !self.terminal_ok(&post.comp) {
                 let mut t = post.comp.clone();
                 twin.update(&mut t, (total + 1000.0) as f32);
                 return err("ended-not-terminal", format!("state is Ended but the component is {:?}; the timeline's terminal values are {:?} (entered from {:?})", post.comp, t, pre.state));
@@ -203,10 +207,13 @@ fn run_history(sim: &mut Sim, pool: &[TlDesc], tl0: usize, two: bool, steps: &[(
                     expect_state = Some(AnimationState::None);
                 }
                 Op::Hot(j) => {
+                    let stale = a.state() == AnimationState::Ended;
                     a.set_timeline(pool[*j].build_cv());
                     mon.twin = Some(Box::new(pool[*j].build_cv()));
                     mon.desc = Some(pool[*j].clone());
-                    mon.run_valid = false;
+                    if stale {
+                        mon.run_valid = false;
+                    }
                 }
                 Op::SwapReset(j) => {
                     a.set_timeline(pool[*j].build_cv());
@@ -305,7 +312,7 @@ pub fn run(run: &mut Run) {
     );
     run.assumptions = vec![
         "bevy 0.11.3 App/Time/Events are trusted; Time::update_with_instant delivers exactly the scheduled delta".into(),
-        "after a hot set_timeline without reset (documented as intentional) only invariants 1, 2, 3, 7, 8 are demanded until the next reset".into(),
+        "after a hot set_timeline without reset (documented as intentional) everything that happens after the swap is judged against the new timeline; only an Ended status reached under the replaced timeline is stale and not judged until the next reset".into(),
     ];
     run.min_sigs = 40;
     let seed = run.seed;
